@@ -221,7 +221,7 @@ def impl_validate(case):
             out = validate_marker_lookup(
                 marker_lookup=lk, query_gene_names=list(case['Q']),
                 taxonomy_tree=tt, min_markers=case['m'])
-        except RuntimeError as e:
+        except Exception as e:     # noqa: any failure is a verdict here
             return classify_error(e), None, lk == before
     return 'ok', out, lk == before
 
@@ -267,7 +267,7 @@ def impl_create_cache(case, workdir, with_tree=True, name='cache.h5'):
                 output_cache_path=path,
                 taxonomy_tree=tt if with_tree else None,
                 min_markers=case['m'])
-        except (RuntimeError, KeyError) as e:
+        except Exception as e:     # noqa: any failure is a verdict here
             return classify_error(e), None, None
         cache = read_cache(path)
         ser = None
@@ -275,9 +275,10 @@ def impl_create_cache(case, workdir, with_tree=True, name='cache.h5'):
             try:
                 ser = ('ok', serialize_markers(marker_cache_path=path,
                                                taxonomy_tree=tt))
-            except (RuntimeError, KeyError) as e:
-                ser = (classify_error(e) if not isinstance(e, KeyError)
-                       else 'missingGroup', None)
+            except KeyError:
+                ser = ('missingGroup', None)
+            except Exception as e:     # noqa: any failure is a verdict here
+                ser = (classify_error(e), None)
     return 'ok', cache, ser
 
 
